@@ -102,7 +102,7 @@ META = {
                                             "echo draws reveal the parameter cell they were paired with (cells of width 1, lane parameters 1 apart)"],
             "REQUIRED_PROBES": {"quick": ["part_mv", "part_comb", "echo_cells", "op_regenerate", "spec_pos1", "spec_dict"],
                                 "thorough": ["part_mv", "part_comb", "echo_cells", "kp_lanes", "op_regenerate", "spec_pos1", "spec_posm1", "spec_dict",
-                                             "spec_int0", "spec_none", "spec_nested_tuple", "nested_outer", "st_echo_ss", "st_normal_rank",
+                                             "spec_int0", "spec_none", "spec_nested_tuple", "nested_outer", "st_echo_ss", "st_normal_rank", "matrix_lane_axis_2", "matrix_lane_axis_-1",
                                              "st_inner_mv", "st_kw", "wrap_int0", "wrap_repeat"]}},
     "C10": {"LEVEL": "exploration",
             "RULE": "case = one of: machine (generated chain model, N in 1..4, seeded history of init / extend / resample / rejuvenate / change "
@@ -117,7 +117,7 @@ META = {
                                             "per script and its unbiasedness end-to-end by the REAL two-stage test"],
             "REQUIRED_PROBES": {"quick": ["mode_machine", "mode_tree", "tree_complete", "move_extend", "move_resample"],
                                 "thorough": ["mode_machine", "mode_tree", "mode_stat", "tree_complete", "move_extend", "move_resample",
-                                             "move_rejuvenate", "move_change", "proposal_custom", "stat_runs"]}},
+                                             "move_rejuvenate", "move_change", "proposal_custom", "custom_proposal", "partial_proposal", "stat_runs"]}},
     "C09": {"LEVEL": "exploration",
             "RULE": "case = (generated target program, observed address subset, selection expression, kernel in {mh, mala, hmc}, step size, "
                     "leapfrog count, scripted noise / momentum / regenerate outcomes, accept uniform placed at min(1, alpha_ref) x (1 -/+ 1.5%) "
